@@ -39,7 +39,7 @@ func runC17(r *engine.Run) {
 	lockstep(r)
 	domRecord(r, "DOM-record")
 	domNodeFound(r, "DOM-nodefound")
-	errGuard(r, "ERR-guard", "ERR-dropped", funcsOfPkg(r, pkgUtil), 40)
+	errGuard(r, "ERR-guard", "ERR-dropped", funcsOfPkg(r, pkgUtil), 20)
 }
 
 // resultValue resolves the i-th result of ret through a named-result cell
@@ -196,7 +196,7 @@ func sentinelCompares(f *ssa.Function, e ssa.Value) map[string]*ssa.BinOp {
 	out := map[string]*ssa.BinOp{}
 	engine.Instrs(f, func(in ssa.Instruction) {
 		b, ok := in.(*ssa.BinOp)
-		if !ok || b.Op != token.EQL {
+		if !ok || (b.Op != token.EQL && b.Op != token.NEQ) {
 			return
 		}
 		var other ssa.Value
